@@ -483,6 +483,12 @@ def runOp (op : String) (args : List String) : String :=
         | _, _ => none
       | _ => none
     " ".intercalate ((dedupSpec rs).map fun r => s!"{r.1}:{r.2}")
+  | "ds.input", [o, rd] => (match unhex o, unhex rd with
+      | some o, some rd => (match dsInput o rd with | some b => hex b | none => "err")
+      | _, _ => "bad-op")
+  | "nsec3.input", [n, salt] => (match unhex n, unhex salt with
+      | some n, some salt => (match nsec3Input n salt with | some b => hex b | none => "err")
+      | _, _ => "bad-op")
   | "keytag", [t] => match unhex t with
     | some b => toString (keyTag b) | _ => "bad-op"
   | "spec.keytag", [t] => match unhex t with
